@@ -345,15 +345,29 @@ impl Context<'_> {
 
         let predicates = self.predicate_slot(&triple.predicate)?;
 
+        // `subject` and `object` are members of a Proposition's view like any
+        // other, so a field mask can hide them — and a tuple pattern is a
+        // constraint on exactly those. For a caller some of whose reads are
+        // masked the index is therefore not asked about them, as
+        // `match_element` does not ask it about `stance` or `name`: every
+        // active Proposition of the predicate is loaded whatever its ends are,
+        // and they are decided below against what this caller may see (§109).
+        // The predicate is the Schema symbol a Proposition is typed by — its
+        // `schema_ref`, what a Grant's own scope is written in — and stays
+        // selectable under a mask, as `{type: "Person"}` does for a Concept.
+        let masked_reader = self.authority.carries_field_mask();
+
         let mut filters = vec![
             eq_field("space", Fv::Text(self.space.clone())),
             eq_field("state", Fv::Text("active".to_string())),
         ];
-        if let EndpointSlot::Fixed(endpoint) = &subject {
-            filters.push(eq_field("subject_key", Fv::Text(endpoint.key())));
-        }
-        if let EndpointSlot::Fixed(endpoint) = &object {
-            filters.push(eq_field("object_key", Fv::Text(endpoint.key())));
+        if !masked_reader {
+            if let EndpointSlot::Fixed(endpoint) = &subject {
+                filters.push(eq_field("subject_key", Fv::Text(endpoint.key())));
+            }
+            if let EndpointSlot::Fixed(endpoint) = &object {
+                filters.push(eq_field("object_key", Fv::Text(endpoint.key())));
+            }
         }
         if let PredicateSlot::Fixed(symbols) = &predicates {
             filters.push(Filter::Field((
@@ -393,28 +407,52 @@ impl Context<'_> {
             let Some(crate::store::Element::Proposition(row)) = self.load(id).await? else {
                 continue;
             };
-            // At a coordinate the filters could not be pushed down, so the
-            // tuple is matched here against the historical row.
-            if historical && !tuple_matches(&row, &subject, &object, &predicates) {
+            // At a coordinate no filter could be pushed down, and for a masked
+            // reader the two ends were not, so the tuple is matched here.
+            if (historical || masked_reader) && !tuple_matches(&row, &subject, &object, &predicates)
+            {
                 continue;
             }
+            // What this caller may see of the tuple. An end the pattern fixes
+            // cannot select by a member the mask removed, or `(?s, "prefers",
+            // :tea)` tells a reader who may not see `object` exactly who
+            // prefers tea; a slot it leaves open reads null there, as `{stance:
+            // ?s}` does — a Literal, which joins with nothing, and never the
+            // `Null` an OPTIONAL pads with, which joins with everything.
+            let seen = self.tuple_members_seen(id, masked_reader);
+            if (!seen.subject && matches!(subject, EndpointSlot::Fixed(_)))
+                || (!seen.object && matches!(object, EndpointSlot::Fixed(_)))
+            {
+                continue;
+            }
+            let withheld = || Binding::Literal(Json::Null);
             let mut solution = vec![Binding::Null; vars.len()];
             if let Some(var) = variable {
                 set(&vars, &mut solution, var, Binding::Element(id));
             }
             if let EndpointSlot::Bind(name) = &subject {
-                set(&vars, &mut solution, name, endpoint_binding(&row.subject));
+                let value = if seen.subject {
+                    endpoint_binding(&row.subject)
+                } else {
+                    withheld()
+                };
+                set(&vars, &mut solution, name, value);
             }
             if let EndpointSlot::Bind(name) = &object {
-                set(&vars, &mut solution, name, endpoint_binding(&row.object));
+                let value = if seen.object {
+                    endpoint_binding(&row.object)
+                } else {
+                    withheld()
+                };
+                set(&vars, &mut solution, name, value);
             }
             if let PredicateSlot::Bind(name) = &predicates {
-                set(
-                    &vars,
-                    &mut solution,
-                    name,
-                    Binding::Symbol(row.predicate_ref.clone()),
-                );
+                let value = if seen.predicate {
+                    Binding::Symbol(row.predicate_ref.clone())
+                } else {
+                    withheld()
+                };
+                set(&vars, &mut solution, name, value);
             }
             rows.push(solution);
         }
@@ -786,19 +824,24 @@ impl Context<'_> {
             ("object_key", "subject")
         };
         let anchor_key = from.key();
+        // A hop reads both ends of the tuple it crosses — the one it leaves
+        // from and the one it arrives at — so for a masked reader the walk
+        // crosses only Propositions both of whose ends it may see, and the
+        // index is asked about the predicate alone (see `match_tuple`).
+        let masked_reader = self.authority.carries_field_mask();
+        let mut filters = vec![
+            Box::new(eq_field("space", Fv::Text(self.space.clone()))),
+            Box::new(eq_field("state", Fv::Text("active".to_string()))),
+            Box::new(Filter::Field((
+                "predicate_ref".to_string(),
+                RangeQuery::Include(symbols.iter().map(|s| Fv::Text(s.clone())).collect()),
+            ))),
+        ];
+        if !masked_reader {
+            filters.push(Box::new(eq_field(anchor, Fv::Text(anchor_key.clone()))));
+        }
         let ids = self
-            .candidates(
-                ElementKind::Proposition,
-                Some(Filter::And(vec![
-                    Box::new(eq_field("space", Fv::Text(self.space.clone()))),
-                    Box::new(eq_field("state", Fv::Text("active".to_string()))),
-                    Box::new(eq_field(anchor, Fv::Text(anchor_key.clone()))),
-                    Box::new(Filter::Field((
-                        "predicate_ref".to_string(),
-                        RangeQuery::Include(symbols.iter().map(|s| Fv::Text(s.clone())).collect()),
-                    ))),
-                ])),
-            )
+            .candidates(ElementKind::Proposition, Some(Filter::And(filters)))
             .await?;
         self.charge(ids.len())?;
 
@@ -808,7 +851,11 @@ impl Context<'_> {
             let Some(crate::store::Element::Proposition(row)) = self.load(id).await? else {
                 continue;
             };
-            if historical {
+            let seen = self.tuple_members_seen(id, masked_reader);
+            if !seen.subject || !seen.object {
+                continue;
+            }
+            if historical || masked_reader {
                 let matches_anchor = if forward {
                     row.subject_key == anchor_key
                 } else {
@@ -834,6 +881,7 @@ impl Context<'_> {
     /// Every distinct subject of the given predicates, for a walk with both
     /// ends unbound.
     async fn tuple_subjects(&mut self, symbols: &[String]) -> Result<Vec<Endpoint>, KipError> {
+        let masked_reader = self.authority.carries_field_mask();
         let ids = self
             .candidates(
                 ElementKind::Proposition,
@@ -855,6 +903,10 @@ impl Context<'_> {
             let Some(crate::store::Element::Proposition(row)) = self.load(id).await? else {
                 continue;
             };
+            // A start of the walk is a subject, which a mask can hide.
+            if !self.tuple_members_seen(id, masked_reader).subject {
+                continue;
+            }
             if historical && (row.state != "active" || !symbols.contains(&row.predicate_ref)) {
                 continue;
             }
@@ -865,6 +917,27 @@ impl Context<'_> {
             }
         }
         Ok(subjects)
+    }
+
+    /// Which members of a loaded Proposition's tuple this caller may see.
+    ///
+    /// Read off the cached view, which `load` redacted: a member the mask
+    /// removed is absent there. An unmasked reader sees every tuple whole, and
+    /// is not asked to pay for the lookup.
+    pub(crate) fn tuple_members_seen(&self, id: ElementId, masked_reader: bool) -> TupleSeen {
+        if !masked_reader {
+            return TupleSeen {
+                subject: true,
+                predicate: true,
+                object: true,
+            };
+        }
+        let view = self.view_of(id);
+        TupleSeen {
+            subject: view.get("subject").is_some(),
+            predicate: view.get("predicate_ref").is_some(),
+            object: view.get("object").is_some(),
+        }
     }
 
     fn predicate_slot(&mut self, predicate: &PredTerm) -> Result<PredicateSlot, KipError> {
@@ -939,6 +1012,13 @@ impl Context<'_> {
     }
 }
 
+/// The members of one Proposition's tuple that survive the caller's mask.
+pub(crate) struct TupleSeen {
+    pub subject: bool,
+    pub predicate: bool,
+    pub object: bool,
+}
+
 /// A tuple endpoint, once resolved against what is already bound.
 enum EndpointSlot {
     Fixed(Endpoint),
@@ -947,8 +1027,8 @@ enum EndpointSlot {
 
 /// Whether a Proposition row satisfies a tuple pattern.
 ///
-/// Only the historical path needs this: a present-day read pushes the same
-/// three constraints into the index.
+/// The historical path needs this, and a masked reader: any other
+/// present-day read pushes the same three constraints into the index.
 fn tuple_matches(
     row: &crate::store::rows::PropositionRow,
     subject: &EndpointSlot,
